@@ -102,6 +102,7 @@ def run_helper(script, n_out, n_in, hb):
             j.set_seq_num(ses, next_num_out=n_out, next_num_in=n_in)
         conn = RecConn(InitiatorProtocol(), "INITIATOR", "ACCEPTOR", j, "localhost", "64444", heartbeat_period=hb)
         conn._rec_init(w, "c")
+        conn.send_on_active = True  # the initiator's application sends from inside on_state_change(ACTIVE), in both set-ups
         conn._connection_state = ConnectionState.NETWORK_CONN_ESTABLISHED
         ft = FIXTester(schema=None, connection=conn)
         w.advance(1.01)  # same virtual clock as the real setup (TestReqID is derived from the time)
@@ -115,9 +116,14 @@ def run_helper(script, n_out, n_in, hb):
                 raise RuntimeError("helper step blocked")
             return r[1]
 
+        nproc = [0]
+
         def drain_acceptor():
             while ft.acceptor_rcv_que:
-                call(ft.process_msg_acceptor())
+                # the documented index argument: default, first, last - the same message when exactly one is queued
+                nproc[0] += 1
+                idx = (None, 0, -1)[(nproc[0] + len(script)) % 3] if len(ft.acceptor_rcv_que) == 1 else None
+                call(ft.process_msg_acceptor() if idx is None else ft.process_msg_acceptor(idx))
 
         uid = 0
         for stp in script:
@@ -166,6 +172,7 @@ def run_real(script, n_out, n_in, hb):
         s = w.make_server(journal=sj, hb=hb, sender="ACCEPTOR", target="INITIATOR")
         c = w.make_client(journal=cj, hb=hb, sender="INITIATOR", target="ACCEPTOR")
         c.auto_logon = False
+        c.send_on_active = True
         from asyncfix.codec import Codec
 
         c._codec = Codec(InitiatorProtocol())  # the same initiator as in the helper run: its own protocol definition
